@@ -60,6 +60,16 @@ def register_secure(reg):
                  raises={"C03.no-key-file-is-named-or-renamed": NAMES})
 
 
+def register_secure_validate(reg):
+    reg.refine("fields.secure_field:SecureField._validate", "core:Field._validate",
+               defs={"accepts_type": (["f", "r"], "typeis(r, 'str')")}, returns="str", modifies=["fresh"],
+               ensures={"C05.a-secret-is-text-kept-as-it-is": "typeis(value, 'str') and result is value",
+                        "C05.deterministic-and-pure": "heap_unchanged() and fs_same()"},
+               raises={"C05.rejection-is-a-value-error": "exc_is(ValueError)",
+                       "C05.only-non-text-is-rejected": "not typeis(value, 'str')",
+                       "C05.deterministic-and-pure": "heap_unchanged() and fs_same()"})
+
+
 def register_challenge_codec(reg):
     """ChallengeField on disk (C09): salt and digest only, base64; a map loads back to the same pair, plain text is hashed"""
     PURE = "heap_unchanged() and fs_same()"
@@ -95,4 +105,5 @@ def register(reg):
     _reg_digest(reg)
     register_secure(reg)
     register_challenge_codec(reg)
+    register_secure_validate(reg)
 
